@@ -314,7 +314,9 @@ def rule_dispatch(ctx):
             ok = any(call_name(c) == h for s in arms[cname].body for c in calls_in(s))
             ctx.check(R, ok, fi.qname, "%s handled by %s" % (cname, h),
                       "a received %s must be processed by %s" % (cname, h), fi.loc(arms[cname]))
-    app = [x for x in own_nodes(fi.node) if isinstance(x, ast.AugAssign) and norm(x) == "self._readBuffer += applicationData.write()"]
+    from .common import resolved_text
+    app = [x for x in own_nodes(fi.node) if isinstance(x, ast.AugAssign) and attr_chain(x.target) == "self._readBuffer"
+           and isinstance(x.op, ast.Add) and resolved_text(fi.node, x.value) == "result.write()"]
     asr = [x for x in own_nodes(fi.node) if isinstance(x, ast.Assert) and norm(x.test) == "isinstance(result, ApplicationData)"]
     ctx.check(R, len(app) == 1 and len(asr) == 1, fi.qname, "everything else is application data, appended in order",
               "the last arm of the read dispatch must append application data to the read buffer", fi.loc())
